@@ -2,7 +2,7 @@ CHECK = dict(
     level='model_checking',
     parts=[dict(name='sched3', src=['harness/sched.c'], cflags=['-DPROP=3'], workers=12,
                 deadline=dict(quick=100, thorough=1200)),
-           dict(name='c03s', src=['harness/c06_fibre.c'], cflags=['-DPROP=3', '-Wno-format-truncation'], workers=16,
+           dict(name='c03s', src=['harness/c06_fibre.c'], cflags=['-DPROP=3', '-Wno-format-truncation'], workers=64,
                 objs=[('@VERIF@/harness/c06_scn.c', ['-fsanitize=thread'])],
                 deadline=dict(quick=150, thorough=1800))],
     rule='explicit-state BFS over histories of the real fibre.c scheduler (file-scope state reached by #including fibre.c) '
